@@ -29,6 +29,19 @@ Theorem complex_keys_ignore_params : forall e f n k ia ib fa fb,
 Proof. exact complex_params_ignored. Qed.
 Print Assumptions complex_keys_ignore_params.
 
+(* AddAllMapKeys (batch update / partial update: the entities are a Go map keyed by the keys, pointer keys being distinct map keys
+   even when they denote equal keys) is the same fold of AddKey over the map's keys in iteration order: whether it rejects does
+   not depend on that order, so it rejects exactly when two keys of the map are equal under key equality *)
+Theorem add_all_map_keys_order_independent : forall e f t ks ks', Forall (sgood e f t) ks -> Permutation ks ks' ->
+  (add_all value (shash e f t) (skeq e f t) (empty_g value) ks = None <-> add_all value (shash e f t) (skeq e f t) (empty_g value) ks' = None).
+Proof. exact simple_add_all_order_independent. Qed.
+Print Assumptions add_all_map_keys_order_independent.
+
+Theorem add_all_map_keys_order_independent_complex : forall e f n ks ks', Forall (cgood e f n) ks -> Permutation ks ks' ->
+  (add_all value (chash e f n) (ckeq e f n) (empty_g value) ks = None <-> add_all value (chash e f n) (ckeq e f n) (empty_g value) ks' = None).
+Proof. exact complex_add_all_order_independent. Qed.
+Print Assumptions add_all_map_keys_order_independent_complex.
+
 (* primitive keys (int32, int64, float32, float64, bool, string): the set is a Go map, equality is == *)
 Theorem add_rejects_duplicates_primitive : forall p ks, Forall (pgood p) ks ->
   (add_all value phash (pkeq p) (empty_p value) ks = None <->
@@ -77,6 +90,14 @@ Theorem locate_returns_original_primitive : forall p ks s k o, Forall (pgood p) 
   In o ks -> prim_equal p o k = true -> locate value phash (pkeq p) s k = Some o.
 Proof. exact primitive_locate_returns_original. Qed.
 Print Assumptions locate_returns_original_primitive.
+
+(* a key that was NOT requested is not found even when its hash collides with a requested key's - whatever the size of the
+   bucket (the equality is always consulted) *)
+Theorem locate_unrequested_colliding_is_none : forall (key : Type) khash keq s0, s0 = empty_g key \/ s0 = empty_p key ->
+  forall ks s k o, add_all key khash keq s0 ks = Some s -> In o ks -> khash k = khash o ->
+  (forall o', In o' ks -> keq o' k = false) -> locate key khash keq s k = None.
+Proof. exact KeySetProofs.locate_unrequested_colliding_is_none. Qed.
+Print Assumptions locate_unrequested_colliding_is_none.
 
 (* ---- every entry of a map of the reply is filed under the caller's ORIGINAL key: entries and result correspond one to one, in
    order (none lost, duplicated or moved), each under a key of the caller's list that is equal to the decoded key.  Premise on
@@ -150,6 +171,13 @@ Example keyset_nonvacuous :
             locate value (shash e 2 t) (skeq e 2 t) s (VLong 7) = None /\
             add_all value (shash e 2 t) (skeq e 2 t) (empty_g value) (ks ++ [VLong 838517077]) = None.
 Proof. vm_compute. split; [reflexivity|]. eexists. repeat split. Qed.
+
+Example colliding_stranger_nonvacuous :
+  let t := HTyperef PLong in
+  shash [] 2 t (VLong 838517077) = shash [] 2 t (VLong 149557353) /\
+  exists s, add_all value (shash [] 2 t) (skeq [] 2 t) (empty_g value) [VLong 838517077] = Some s /\
+            locate value (shash [] 2 t) (skeq [] 2 t) s (VLong 149557353) = None.
+Proof. exact colliding_stranger_not_found. Qed.
 
 (* a primitive set hands the caller's +0 back for a reply that names -0 *)
 Example primitive_signed_zero_nonvacuous :
